@@ -15,6 +15,15 @@ MEAS = {"Measurement": "Tuple[int, int]"}
 SPAN = dict(self_type="Span", aliases={"Span": "Tuple[int, int, tok]"}, ctors={"Span": 3},
             fields={"start": (0, 3), "end": (1, 3), "style": (2, 3)})
 
+SEG = dict(self_type="Segment", aliases={"Segment": "Tuple[str, Optional[tok], bool]"},
+           ctors={"Segment": (3, [("None", "Optional[tok]"), ("false", "bool")])},
+           fields={"text": (0, 3), "style": (1, 3), "is_control": (2, 3)})
+
+# Style as the tuple of the attributes __add__ reads and writes; colours are an opaque always-truthy type C
+STYLE_FIELDS = [("_color", "Optional[C]"), ("_bgcolor", "Optional[C]"), ("_attributes", "int"), ("_set_attributes", "int"),
+                ("_link", "Optional[str]"), ("_link_id", "str"), ("_null", "bool")]
+STYLE_T = "Tuple[" + ", ".join(t for _, t in STYLE_FIELDS) + "]"
+
 FILES = {
     "T2_Ratio.v": dict(imports=IMPORTS, deps=[], fns=[
         Fn("rich/_ratio.py", "ratio_reduce"),
@@ -39,6 +48,58 @@ FILES = {
         Fn("rich/table.py", "Table._extra_width",
            self_fields={"box": "Optional[obj]", "show_edge": "bool", "columns": "List[obj]"}),
     ]),
+    "T2_Color.v": dict(imports=IMPORTS, deps=[], fns=[
+        Fn("rich/color.py", "Color.get_ansi_codes", enums={"ColorType": "rich/color.py"},
+           self_fields={"type": "int", "number": "Optional[int]", "triplet": "Optional[Tuple[int, int, int]]"}),
+    ]),
+    "T2_Live.v": dict(imports=IMPORTS, deps=[], fns=[
+        Fn("rich/live_render.py", "LiveRender.position_cursor", ret="str", ctors={"Control": 1},
+           self_fields={"_shape": "Optional[Tuple[int, int]]"}),
+        Fn("rich/live_render.py", "LiveRender.restore_cursor", ret="str", ctors={"Control": 1},
+           self_fields={"_shape": "Optional[Tuple[int, int]]"}),
+    ]),
+    "T2_Segment.v": dict(imports=IMPORTS + ["From RichGen Require Import CellWidthTable T2_Cells."], deps=["T2_Cells.v"], fns=[
+        Fn("rich/segment.py", "Segment.cell_length", prop=True, externs={"cell_len": (["str"], "int", False)}, **SEG),
+        Fn("rich/segment.py", "Segment.adjust_line_length", params={"style": "Optional[tok]"},
+           externs={"cell_len": (["str"], "int", False)}, **SEG),
+    ]),
+    "T2_Progress.v": dict(imports=IMPORTS + ["From Coq Require Import QArith Qround Qminmax.",
+                                             "From RichModel Require Import T2LibQ."], deps=[], fns=[
+        Fn("rich/progress.py", "Task.remaining", self_fields={"total": "float", "completed": "float"}),
+        Fn("rich/progress.py", "Task.elapsed", externs={"self.get_time": ([], "float", False)},
+           self_fields={"start_time": "Optional[float]", "stop_time": "Optional[float]"}),
+        Fn("rich/progress.py", "Task.finished", self_fields={"finished_time": "Optional[float]"}),
+        Fn("rich/progress.py", "Task.percentage", self_fields={"total": "float", "completed": "float"}),
+        Fn("rich/progress.py", "Task.time_remaining",
+           self_fields={"finished": "bool", "speed": "Optional[float]", "remaining": "float"}),
+    ]),
+    "T2_Style.v": dict(imports=IMPORTS, deps=[], fns=[
+        Fn("rich/style.py", "Style.__add__", gname="style_add_gen", self_type="Style", abstract=["C"],
+           params={"style": "Optional[Style]"}, ret="Style",
+           aliases={"Style": STYLE_T, "__abstract__": ("C",)},
+           fields={a: (i, len(STYLE_FIELDS)) for i, (a, _) in enumerate(STYLE_FIELDS)},
+           objects={"Style": STYLE_FIELDS}, ignored_attrs=["_ansi", "_style_definition", "_hash"]),
+    ]),
+    "T2_Bar.v": dict(imports=IMPORTS + ["From RichGen Require Import FrameBoxes."], deps=[], fns=[
+        Fn("rich/bar.py", "Bar.__rich_console__", gname="bar_console_gen",
+           self_fields={"width": "Optional[int]", "begin": "int", "end": "int", "size": "int", "style": "Optional[tok]"},
+           obj_fields={"options.max_width": "int"}, opaque_params=["console", "options"],
+           consts={"BEGIN_BLOCK_ELEMENTS": ("BEGIN_BLOCK_ELEMENTS", "List[str]"),
+                   "END_BLOCK_ELEMENTS": ("END_BLOCK_ELEMENTS", "List[str]"), "FULL_BLOCK": ("FULL_BLOCK", "str"),
+                   "Segment.line()": ("([10], None, false)", "Segment")},
+           **{k2: v2 for k2, v2 in SEG.items() if k2 != "self_type"}),
+    ]),
+    "T2_ProgressBar.v": dict(imports=IMPORTS, deps=[], fns=[
+        Fn("rich/progress_bar.py", "ProgressBar.__rich_console__", gname="pbar_console_gen",
+           self_fields={"width": "Optional[int]", "pulse": "bool", "total": "int", "completed": "int",
+                        "style": "tok", "complete_style": "tok", "finished_style": "tok"},
+           obj_fields={"options.max_width": "int", "options.legacy_windows": "bool", "options.ascii_only": "bool",
+                       "console.no_color": "bool", "console.color_system": "Optional[obj]"},
+           opaque_params=["console", "options"],
+           externs={"self._render_pulse": (["int", "bool"], "List[Segment]", False),
+                    "console.get_style": (["tok"], "Optional[tok]", False)},
+           **{k2: v2 for k2, v2 in SEG.items() if k2 != "self_type"}),
+    ]),
     "T2_Span.v": dict(imports=IMPORTS, deps=[], fns=[
         Fn("rich/text.py", "Span.split", gname="span_split_gen", **SPAN),
         Fn("rich/text.py", "Span.move", gname="span_move_gen", **SPAN),
@@ -51,9 +112,9 @@ def build(fname, repo):
     cfg = FILES[fname]
     reg = {}
     for d in cfg["deps"]:
-        _, reg = build(d, repo)
+        reg.update(build(d, repo)[1])
     fresh = [Fn(f.file, f.path, f.gname, f.params, f.self_type, f.self_fields, f.externs, f.consts, f.ctors,
-                f.aliases, f.ret, f.fields) for f in cfg["fns"]]
+                f.aliases, f.ret, f.fields, f.enums, f.prop, f.abstract, f.objects, f.ignored_attrs, f.obj_fields, f.opaque_params) for f in cfg["fns"]]
     return t2.translate_file(repo, fresh, cfg["imports"], reg)
 
 
